@@ -833,6 +833,11 @@ fn push_insert_seeds() -> Vec<Value> {
         json!({"ruleset": rs[5].clone(), "kind": "underride", "rule": {"rule_id": "u2", "conditions": [], "actions": ["notify"]}, "after": "u"}),
         json!({"ruleset": {}, "kind": "override", "rule": {"rule_id": "first", "actions": []}}),
         json!({"ruleset": rs[4].clone(), "kind": "override", "rule": {"rule_id": "o2", "actions": []}, "after": "o", "before": null}),
+        // an existing rule re-inserted relative to itself (also when it is the last rule of its kind)
+        json!({"ruleset": full, "kind": "override", "rule": {"rule_id": "my.override", "actions": []}, "after": "my.override"}),
+        json!({"ruleset": full, "kind": "content", "rule": {"rule_id": "glob", "pattern": "y", "actions": []}, "after": "glob"}),
+        json!({"ruleset": full, "kind": "room", "rule": {"rule_id": seeds::ROOM, "actions": ["notify"]}, "after": seeds::ROOM}),
+        json!({"ruleset": full, "kind": "sender", "rule": {"rule_id": seeds::BOB, "actions": []}, "after": seeds::BOB}),
     ]
 }
 
